@@ -375,6 +375,9 @@ func cmdWorker(args []string) int {
 	runtime.GOMAXPROCS(1)
 	debug.SetGCPercent(-1)
 	debug.SetMemoryLimit(3 << 30) // safety net only; never reached by a well-behaved run
+	// A hard ceiling as well: a library that allocates without bound must kill
+	// this worker (located and reported as C20/fatal-crash), not the machine.
+	syscall.Setrlimit(syscall.RLIMIT_AS, &syscall.Rlimit{Cur: 10 << 30, Max: 10 << 30})
 	loadKnown()
 	if *out != "" {
 		hangMarker = *out + ".hang"
